@@ -214,10 +214,34 @@ func (t *Taint) goodBound(b ssa.Value) bool {
 
 // boundEdges returns the edges on which v is known ≤ a good bound (upper) and ≥ 0 (lower).
 func (t *Taint) boundEdges(f *ssa.Function, v ssa.Value) (upper, lower []Edge) {
+	raw := map[ssa.Value]bool{}
+	cc := convChain(v)
+	for _, c := range cc {
+		raw[c] = true
+	}
+	root := cc[len(cc)-1]
+	// go/ssa has no CSE: `int(count)` in the test and `int(count)` at the use are two Convert
+	// instructions of the same source; a conversion of the same root to a type that also occurs in
+	// v's own chain denotes the same value
 	chain := map[ssa.Value]bool{}
-	for _, c := range convChain(v) {
+	for c := range raw {
 		chain[c] = true
 	}
+	AllInstrs(f, func(in ssa.Instruction) {
+		x, ok := in.(ssa.Value)
+		if !ok || raw[x] {
+			return
+		}
+		xc := convChain(x)
+		if len(xc) < 2 || xc[len(xc)-1] != root {
+			return
+		}
+		for c := range raw {
+			if types.Identical(c.Type(), x.Type()) {
+				chain[x] = true
+			}
+		}
+	})
 	for _, g := range FindGuards(f, func(c ssa.Value) (bool, bool) {
 		b, ok := c.(*ssa.BinOp)
 		if !ok {
